@@ -94,6 +94,9 @@ func Discharge(obls []*Obligation, tmpDir string, timeoutSec int, workers int, k
 }
 
 func dischargeOne(o *Obligation, tmpDir string, idx int, timeoutSec int, keep bool) *ObResult {
+	if o.Decided != nil {
+		return o.Decided
+	}
 	r := &ObResult{Name: o.Name, Kind: o.Kind, Func: o.Func, Pos: o.Pos, Text: o.Text}
 	want := "unsat"
 	if o.Expect == "sat" {
